@@ -1,5 +1,193 @@
-/- Driver.Value — line protocol of the `value` sub-harness (stub until the unit is built). -/
-import Ioc.Basic
+/-
+  Driver.Value — line protocol of the `value` / `valueexpr` sub-harnesses (C17, C18).
+
+    <kind> <type> <cfg> <evals> <verdicts> <tag>…
+      V3 … tagV tagP tagX   → `<V> <P> <X>`     value tag, prop shorthand, prefix tag on the same configuration
+      E  … tag              → `<V>`             one value tag (expressions, validation)
+      Q  … tag              → `<V>`             one prefix tag
+    type     S I J U D B A | P<ty> | L<ty> | M<ty> | T(hexname:ty:hexvalidate,…)
+    value    z | s<hex> | i<dec> | F<dec> | f<decimal> | b0 | b1 | l(v,…) | m(hexkey=v,…)
+    evals    e(hexexpr=value|!,…)       the expression engine as a table (anything else: `unmodelled`)
+    verdicts v(hexrender=0|1,…)         the validator as a table keyed by the rendering of the bound value
+    output   rendering of the field | err | panic | unmodelled | noverdict
+
+  Every binding goes through `Ioc.Value.runProperty`, i.e. through the stage order computed from the
+  regenerated processor table, with the concrete JSON codec `goJson`.
+-/
+import Ioc.Value
 namespace Driver.Value
-def handle (_line : String) : String := "unimplemented"
+open Ioc Ioc.Value
+
+/-! ### rendering -/
+
+mutual
+partial def render : FVal → String
+  | .nil => "nil"
+  | .str s => "s" ++ toHex s
+  | .int i => "n" ++ toString i
+  | .dec t => "n" ++ String.ofList (t.map (fun b => Char.ofNat b.toNat))
+  | .bool b => if b then "b1" else "b0"
+  | .list l => "[" ++ joinWith "," (l.map render) ++ "]"
+  | .map m => "{" ++ joinWith "," ((isort (fun a b => bytesLt a.1 b.1) m).map fun kv => toHex kv.1 ++ ":" ++ render kv.2) ++ "}"
+  | .struct fs => "(" ++ joinWith "," (fs.map fun kv => toHex kv.1 ++ ":" ++ render kv.2) ++ ")"
+  | .ptr v => "&" ++ render v
+end
+
+def showRes : Except Err FVal → String
+  | .ok v => render v
+  | .error .panic => "panic"
+  | .error .unmodelled => "unmodelled"
+  | .error _ => "err"
+
+/-! ### parsing the tokens -/
+
+def isHexCh (c : Char) : Bool := c.isDigit || ('a' ≤ c && c ≤ 'f') || c = '-'
+
+def spanCh (p : Char → Bool) (l : List Char) : List Char × List Char := (l.takeWhile p, l.dropWhile p)
+
+def hexTok (l : List Char) : Option Bytes := fromHex (String.ofList l)
+
+partial def pVal : List Char → Option (Val × List Char)
+  | 'z' :: r => some (.null, r)
+  | 's' :: r =>
+    let (h, rest) := spanCh isHexCh r
+    (hexTok h).map fun b => (.str b, rest)
+  | 'i' :: r =>
+    let (d, rest) := spanCh (fun c => c.isDigit || c = '-') r
+    (String.ofList d).toInt?.map fun i => (.int i, rest)
+  | 'F' :: r =>
+    let (d, rest) := spanCh (fun c => c.isDigit || c = '-') r
+    (String.ofList d).toInt?.map fun i => (.flt i, rest)
+  | 'f' :: r =>
+    let (d, rest) := spanCh (fun c => c.isDigit || c = '-' || c = '.') r
+    some (.dec (ofString (String.ofList d)), rest)
+  | 'b' :: c :: r => some (.bool (c = '1'), r)
+  | 'l' :: '(' :: r =>
+    let rec goL (r : List Char) (acc : List Val) : Option (Val × List Char) :=
+      match r with
+      | ')' :: rest => some (.list acc.reverse, rest)
+      | ',' :: rest => goL rest acc
+      | _ => match pVal r with
+        | some (v, rest) => goL rest (v :: acc)
+        | none => none
+    goL r []
+  | 'm' :: '(' :: r =>
+    let rec goM (r : List Char) (acc : List (Bytes × Val)) : Option (Val × List Char) :=
+      match r with
+      | ')' :: rest => some (.map acc.reverse, rest)
+      | ',' :: rest => goM rest acc
+      | _ =>
+        let (h, rest) := spanCh isHexCh r
+        match hexTok h, rest with
+        | some k, '=' :: rest2 =>
+          match pVal rest2 with
+          | some (v, rest3) => goM rest3 ((k, v) :: acc)
+          | none => none
+        | _, _ => none
+    goM r []
+  | _ => none
+
+partial def pTy : List Char → Option (FieldTy × List Char)
+  | 'S' :: r => some (.string, r)
+  | 'I' :: r => some (.int, r)
+  | 'J' :: r => some (.int, r)
+  | 'U' :: r => some (.uint, r)
+  | 'D' :: r => some (.float, r)
+  | 'B' :: r => some (.bool, r)
+  | 'A' :: r => some (.any, r)
+  | 'P' :: r => (pTy r).map fun x => (.ptr x.1, x.2)
+  | 'L' :: r => (pTy r).map fun x => (.slice x.1, x.2)
+  | 'M' :: r => (pTy r).map fun x => (.map x.1, x.2)
+  | 'T' :: '(' :: r =>
+    let rec go (r : List Char) (acc : List (Bytes × FieldTy)) : Option (FieldTy × List Char) :=
+      match r with
+      | ')' :: rest => some (.struct acc.reverse, rest)
+      | ',' :: rest => go rest acc
+      | _ =>
+        let (h, rest) := spanCh isHexCh r
+        match hexTok h, rest with
+        | some k, ':' :: rest2 =>
+          match pTy rest2 with
+          | some (t, ':' :: rest3) =>
+            let (_, rest4) := spanCh isHexCh rest3      -- the validate tag of the field: used by the harness only
+            go rest4 ((k, t) :: acc)
+          | _ => none
+        | _, _ => none
+    go r []
+  | _ => none
+
+/-- `e(hex=val|!,…)` -/
+partial def pEvals (s : String) : Option (List (Bytes × Except Err Val)) :=
+  match s.toList with
+  | 'e' :: '(' :: r =>
+    let rec go (r : List Char) (acc : List (Bytes × Except Err Val)) : Option (List (Bytes × Except Err Val)) :=
+      match r with
+      | [')'] => some acc.reverse
+      | ',' :: rest => go rest acc
+      | _ =>
+        let (h, rest) := spanCh isHexCh r
+        match hexTok h, rest with
+        | some k, '=' :: '!' :: rest2 => go rest2 ((k, .error .expr) :: acc)
+        | some k, '=' :: rest2 =>
+          match pVal rest2 with
+          | some (v, rest3) => go rest3 ((k, .ok v) :: acc)
+          | none => none
+        | _, _ => none
+    go r []
+  | _ => none
+
+/-- `v(hex=0|1,…)` -/
+partial def pVerdicts (s : String) : Option (List (Bytes × Bool)) :=
+  match s.toList with
+  | 'v' :: '(' :: r =>
+    let rec go (r : List Char) (acc : List (Bytes × Bool)) : Option (List (Bytes × Bool)) :=
+      match r with
+      | [')'] => some acc.reverse
+      | ',' :: rest => go rest acc
+      | _ =>
+        let (h, rest) := spanCh isHexCh r
+        match hexTok h, rest with
+        | some k, '=' :: c :: rest2 => go rest2 ((k, c = '1') :: acc)
+        | _, _ => none
+    go r []
+  | _ => none
+
+def strBytes (s : String) : Bytes := s.toUTF8.toList
+
+def mkCfg (v : Val) : Cfg :=
+  match v with
+  | .map m => fun k => (alookup k m).getD .null
+  | _ => fun _ => .null
+
+def mkEval (t : List (Bytes × Except Err Val)) : Bytes → Except Err Val :=
+  fun e => (alookup e t).getD (.error .unmodelled)
+
+def mkValidate (t : List (Bytes × Bool)) (dflt : Bool) : FVal → List Bytes → Bool :=
+  fun v _ => (alookup (strBytes (render v)) t).getD dflt
+
+/-- one property through the stages; a missing verdict shows as `noverdict` -/
+def runOne (cfg : Cfg) (ev : Bytes → Except Err Val) (vt : List (Bytes × Bool)) (isValue : Bool) (tag : Bytes) (ty : FieldTy) : String :=
+  let a := showRes (runProperty goJson ev (mkValidate vt true) cfg isValue tag ty)
+  let b := showRes (runProperty goJson ev (mkValidate vt false) cfg isValue tag ty)
+  if a = b then a else "noverdict"
+
+def handle (line : String) : String :=
+  match line.splitOn " " with
+  | kind :: tyS :: cfgS :: evS :: vdS :: tags =>
+    match pTy tyS.toList, pVal cfgS.toList, pEvals evS, pVerdicts vdS, tags.mapM fromHex with
+    | some (ty, []), some (cfgV, []), some evs, some vds, some tagBs =>
+      let cfg := mkCfg cfgV
+      let ev := mkEval evs
+      match kind, tagBs with
+      | "V3", [tv, tp, tx] =>
+        let p := match Tag.propShorthand? tp with
+          | none => "panic"
+          | some t => runOne cfg ev vds true t ty
+        runOne cfg ev vds true tv ty ++ " " ++ p ++ " " ++ runOne cfg ev vds false tx ty
+      | "E", [tv] => runOne cfg ev vds true tv ty
+      | "Q", [tx] => runOne cfg ev vds false tx ty
+      | _, _ => "bad-line"
+    | _, _, _, _, _ => "bad-line"
+  | _ => "bad-line"
+
 end Driver.Value
